@@ -61,6 +61,9 @@ func varint(b []byte, pos *int) (int32, error) {
 	return int32(uint32(v)), nil
 }
 
+// ErrDataLen: the announced length of the data array does not fit entry width x entry count.
+var ErrDataLen = errors.New("pal: data array has the wrong length")
+
 // Decode reads one paletted container from b.
 func Decode(k Kind, b []byte) (Decoded, error) {
 	var d Decoded
@@ -101,7 +104,7 @@ func Decode(k Kind, b []byte) (Decoded, error) {
 	}
 	want := rb.LongsFor(width, k.Len)
 	if int(nl) != want {
-		return d, fmt.Errorf("pal: data array has %d longs, %d entries of %d bits need %d", nl, k.Len, width, want)
+		return d, fmt.Errorf("%w: %d longs, %d entries of %d bits need %d", ErrDataLen, nl, k.Len, width, want)
 	}
 	if len(b)-pos < 8*want {
 		return d, errors.New("pal: data array truncated")
